@@ -149,7 +149,7 @@ var props = []*PropDef{
 		Unwind: []*Unwinder{unwEAN, unwPDF, unwAztec, unwDM, unwSelect, unwQRBlocks},
 		Funcs: append(append([]string{}, bitlistFuncs...), "utils.(*GaloisField).Multiply", "utils.(*GaloisField).Divide", "utils.(*GaloisField).Invers",
 			"twooffive.EncodeWithColor", "twooffive.Encode", "twooffive.AddCheckSum", "codabar.EncodeWithColor", "codabar.Encode", "code39.EncodeWithColor", "code39.Encode", "datamatrix.addPadding", "datamatrix.encodeText",
-			"qr.findSmallestVersionInfo", "qr.addPaddingAndTerminator", "qr.encodeNumeric", "qr.encodeUnicode", "qr.stringToAlphaIdx$1", "qr.encodeAlphaNumeric", "qr.encodeAuto", "qr.(Encoding).getEncoder"),
+			"qr.findSmallestVersionInfo", "qr.addPaddingAndTerminator", "qr.encodeNumeric", "qr.encodeUnicode", "qr.stringToAlphaIdx$1", "qr.encodeAlphaNumeric", "qr.encodeAuto", "qr.(Encoding).getEncoder", "code93.getChecksum"),
 		Harness: []Harness{
 			{Pkg: "qr", File: "c01_qr_test.go", Run: "^TestVerifC10QR$", Bound: boundedNote + "no panic, result xor error, accept iff expressible in the mode and within version-40 capacity"},
 			{Pkg: "datamatrix", File: "c02_dm_test.go", Run: "^TestVerifC10DM$", Bound: boundedNote + "accept iff <= 1558 ASCII-encodation codewords"},
